@@ -109,8 +109,12 @@ func seedDirs(id string) []string {
 func runSeedWitness(p *Prop, dir string) witnessResult {
 	res := witnessResult{Name: "seed:" + filepath.Base(dir), File: "seeded/" + filepath.Base(dir) + "/patch.diff"}
 	var meta seedMeta
-	if raw, err := os.ReadFile(filepath.Join(dir, "meta.json")); err == nil {
-		_ = json.Unmarshal(raw, &meta)
+	raw0, err0 := os.ReadFile(filepath.Join(dir, "meta.json"))
+	if err0 != nil {
+		// confirmed but not yet run through tools/seeds.py: replay it anyway
+		meta.Detected = true
+	} else {
+		_ = json.Unmarshal(raw0, &meta)
 	}
 	if !meta.Detected {
 		res.Status, res.Detail = "skipped", "recorded as reported by another property's check (see meta.json)"
@@ -136,8 +140,8 @@ func runSeedWitness(p *Prop, dir string) witnessResult {
 	runRules(p, r)
 	var hit []string
 	seen := map[string]bool{}
-	for _, o := range r.Obl {
-		if o.Status != "discharged" && !seen[o.Rule] {
+	for _, o := range unknownReports(r) {
+		if !seen[o.Rule] {
 			seen[o.Rule] = true
 			hit = append(hit, o.Rule)
 		}
@@ -175,15 +179,36 @@ func tryPatch(id, patch string) int {
 	r := &Run{ID: p.ID, Tier: "witness", start: time.Now(), W: w}
 	runRules(p, r)
 	n := 0
-	for _, o := range r.Obl {
-		if o.Status != "discharged" {
-			n++
-			fmt.Printf("  %s %s %s at %s: %s\n", o.Status, o.Rule, o.Construct, o.Pos, abbr(o.Note, 2))
-		}
+	for _, o := range unknownReports(r) {
+		n++
+		fmt.Printf("  %s %s %s at %s: %s\n", o.Status, o.Rule, o.Construct, o.Pos, abbr(o.Note, 2))
 	}
 	if n == 0 {
 		fmt.Println("  MISSED: no rule of", id, "reports this patch")
 		return 1
 	}
 	return 0
+}
+
+// unknownReports: the undischarged obligations of a run that are not listed
+// known findings (those are reported on the unchanged tree as well and say
+// nothing about a seeded change).
+func unknownReports(r *Run) []*Obligation {
+	known := loadKnownFindings()
+	var out []*Obligation
+	for _, o := range r.Obl {
+		if o.Status == "discharged" {
+			continue
+		}
+		isKnown := false
+		for _, k := range known {
+			if k.Property == r.ID && k.Rule == o.Rule && k.Construct == o.Construct {
+				isKnown = true
+			}
+		}
+		if !isKnown {
+			out = append(out, o)
+		}
+	}
+	return out
 }
